@@ -249,6 +249,33 @@ func c01Sequential(ev *vlib.Evidence, driver string, idx int, faults bool) {
 			opname = fmt.Sprintf("peer %s num=%d", n.Name, num)
 			var resp pool.PeerResponse
 			opErr = w.Signed(conn.AgentSide, n, n.NodeID, "vipnode_peer", &resp, pool.PeerRequest{Num: num})
+		case k == 17 && len(lw.wallets) > 0:
+			// withdrawal; sometimes a billed transfer lands on the wallet's node while the settlement is in flight
+			wal := lw.wallets[r.Intn(len(lw.wallets))]
+			bal, _ := w.RawStore.GetAccountBalance(store.Account(wal.Wallet))
+			c0 := new(big.Int).Set(&bal.Credit)
+			linked, _ := w.RawStore.GetAccountNodes(store.Account(wal.Wallet))
+			inflight := ""
+			w.SettleFn = nil
+			if len(linked) > 0 && r.Intn(2) == 0 {
+				amt := big.NewInt(int64(1 + r.Intn(1000000)))
+				payer := lw.clients[r.Intn(len(lw.clients))]
+				if _, err := w.RawStore.GetNode(store.NodeID(payer.NodeID)); err == nil {
+					inflight = fmt.Sprintf(" [credit %s to a node of the wallet, paid by %s, while settling]", amt, payer.Name)
+					w.SettleFn = func(e *vlib.SettleEvent) error {
+						w.RawStore.AddNodeBalance(linked[0], amt)
+						w.RawStore.AddNodeBalance(store.NodeID(payer.NodeID), new(big.Int).Neg(amt))
+						return nil
+					}
+				}
+			}
+			opname = fmt.Sprintf("withdraw %s credit=%s%s", wal.Name, c0, inflight)
+			opErr = w.Signed(w.Local, wal, wal.Wallet, "pool_withdraw", nil)
+			w.SettleFn = nil
+			if opErr == nil {
+				// only a successful withdrawal changes the sum, and only by the credit it settled
+				want.Sub(want, c0)
+			}
 		case k < 18 && len(lw.wallets) > 0:
 			wal := lw.wallets[r.Intn(len(lw.wallets))]
 			all := lw.allNodes()
@@ -436,7 +463,7 @@ func c01Concurrent(ev *vlib.Evidence, driver string, idx int) {
 
 func TestC01(t *testing.T) {
 	ev := vlib.NewEvidence("C01", "exploration",
-		"(a) random sequential pool histories (connect, reconnect, billed keep-alives with random peer reports and elapsed times, peer requests, pool_addNode linking, deposits, forged requests; min balance in {nil,-1e6,0,1,1e6,1e20}) with the ledger total checked two ways after every operation; (b) the same with at most one injected failing store call per pool operation; (c) concurrent client updates against shared hosts with concurrent wallet linking and injected delays, ledger checked at quiescence; non-trivial = credit actually moved; distinct = distinct traces")
+		"(a) random sequential pool histories (connect, reconnect, billed keep-alives with random peer reports and elapsed times, peer requests, pool_addNode linking, deposits, withdrawals incl. a billed transfer landing while the settlement is in flight, forged requests; min balance in {nil,-1e6,0,1,1e6,1e20}) with the ledger total checked two ways after every operation; (b) the same with at most one injected failing store call per pool operation; (c) concurrent client updates against shared hosts with concurrent wallet linking and injected delays, ledger checked at quiescence; non-trivial = credit actually moved; distinct = distinct traces")
 	ev.Assume("fault discipline: at most one failing store call per pool operation (clause keys single-store-fault:*)")
 	for _, driver := range vlib.Drivers() {
 		driver := driver
